@@ -4,7 +4,7 @@
 // license that can be found in the LICENSE file or at
 // https://opensource.org/licenses/MIT.
 
-use onig::{Regex, RegexOptions, Syntax};
+use onig::{MatchParam, Regex, RegexOptions, SearchOptions, Syntax};
 
 /// Parse a string as a POSIX Basic Regular Expression.
 fn parse_bre(expr: &str, options: RegexOptions) -> Result<Regex, onig::Error> {
@@ -180,7 +180,18 @@ impl Pattern {
 
     /// Test if this pattern matches a string.
     pub fn matches(&self, string: &str) -> bool {
-        self.regex.as_ref().is_some_and(|r| r.is_match(string))
+        // Regex::is_match() panics when the engine gives up (retry limit), so
+        // call the fallible variant; a pattern that cannot be decided does not match.
+        self.regex.as_ref().is_some_and(|r| {
+            r.match_with_param(
+                string,
+                0,
+                SearchOptions::SEARCH_OPTION_NONE,
+                None,
+                MatchParam::default(),
+            )
+            .is_ok_and(|matched| matched == Some(string.len()))
+        })
     }
 }
 
